@@ -93,20 +93,39 @@ def check(ctx):
             ctx.ob("R15-a", cf, "what is awaited is the callable's own return value, when it is awaitable", ok, node=stmt_of(aw),
                    detail="" if ok else f"`{norm(stmt_of(aw))}`", by=("isawaitable(retval_or_awaitable)",))
     ses = ctx.sites(cf, f"{p_fut}.set_exception($X)")
+    from sa.engine.core import _may_fall_through
+    covered = set()
     for st, env in ses:
         h = enclosing(st, (ast.ExceptHandler,), stop=fn)
-        ok = h is not None and h.type is not None and ast.unparse(h.type) == "BaseException" and getattr(env["X"], "id", None) == h.name
+        ht = ast.unparse(h.type) if h is not None and h.type is not None else None
+        # (one `except BaseException` clause, or an `except Exception` clause followed by one for the remaining base exceptions)
+        ok = ht in ("BaseException", "Exception") and getattr(env["X"], "id", None) == h.name
+        covered.add(ht)
         ctx.ob("R15-a", cf, "the exception delivered is the one the callable raised (any BaseException)", ok, node=st,
                detail="" if ok else f"`{norm(st)}` is not `except BaseException as e: future.set_exception(e)`", by=("except BaseException as exc",))
         ctx.require_at("R15-a", cf, st, [[f"not {p_fut}.cancelled()"]], instance="an exception is set only on a future that was not cancelled", what="set_exception", broad=True)
         if h is not None:
+            tr_ = getattr(h, "_parent", None)
+            earlier = [ast.unparse(x.type) for x in tr_.handlers[:tr_.handlers.index(h)] if x.type is not None] if isinstance(tr_, ast.Try) and h in tr_.handlers else []
             rr = [n for n in own_walk(h) if isinstance(n, ast.Raise) and n.exc is None]
-            okr = False
-            for r in rr:
-                fa = ctx.facts_at(cf, r, broad=True)
-                okr = bool(fa) and all((f"isinstance({h.name}, Exception)", False) in x for x in fa)
-            ctx.ob("R15-a", cf, "non-Exception base exceptions are re-raised after being reported", okr, node=h,
+            if ht == "Exception":
+                okr = not [n for n in own_walk(h) if isinstance(n, ast.Raise)]
+                what_ = "an ordinary exception is reported to the caller only (not re-raised into the portal's task group)"
+            elif "Exception" in earlier:
+                # this clause only ever sees non-Exception base exceptions: it re-raises on every path
+                okr = bool(rr) and not _may_fall_through(h.body) and not [n for n in own_walk(h) if isinstance(n, ast.Return)]
+                what_ = "non-Exception base exceptions are re-raised after being reported"
+            else:
+                okr = False
+                for r in rr:
+                    fa = ctx.facts_at(cf, r, broad=True)
+                    okr = bool(fa) and all((f"isinstance({h.name}, Exception)", False) in x for x in fa)
+                what_ = "non-Exception base exceptions are re-raised after being reported"
+            ctx.ob("R15-a", cf, what_, okr, node=h,
                    detail="" if okr else "the BaseException handler does not re-raise exactly when the exception is not an Exception", by=("if not isinstance(exc, Exception): raise",))
+    ctx.ob("R15-a", cf, "every exception of the callable reaches the caller's future (a clause for BaseException reports it)", "BaseException" in covered,
+           detail="" if "BaseException" in covered else "no `except BaseException` clause calls future.set_exception: a base exception of the callable leaves the caller waiting for ever",
+           by=("except BaseException",))
     # cancellation of the task -> future cancelled
     hs = [h for h in own_walk(fn) if isinstance(h, ast.ExceptHandler)]
     ch = [h for h in hs if h.type is not None and "get_cancelled_exc_class" in ast.unparse(h.type)]
